@@ -283,6 +283,10 @@ def judge(case, out):
         else:
             if r.get('client') != ('AssociationReleasedError', None, None):
                 viol.append((sig + ':error-type', 'the requestor saw %r, expected AssociationReleasedError (%s)' % (r.get('client'), where)))
+            elif names_c.count('A-ABORT') != 1 and 'A-RELEASE-RP' not in names_c:
+                # the user's block let the error escape: that is leaving the association through an error
+                viol.append((sig + ':error-exit-without-abort', 'the requestor left the association through AssociationReleasedError and put %r on the wire '
+                             '(leaving through an error aborts) (%s)' % (names_c, where)))
     elif kind == 'all-contexts-refused':
         if r.get('accepted') != []:
             viol.append((sig + ':setup', 'expected an association without any accepted context, got %r (%s)' % (r.get('accepted'), where)))
